@@ -1414,6 +1414,21 @@ impl<'a> Collector<'a> {
       }
       return;
     }
+    // arm-type: the arms of a match must all have the same type (spec.md 6.11); the value of ONE arm of an
+    // int-typed match is replaced by a string literal. The other arms stay int, so whichever of them (or the
+    // expected type of the context) fixes the type of the match, the match is ill-typed.
+    if is_int(&m.common.type_) {
+      for (i, c) in m.cases.iter().enumerate() {
+        if !is_int(c.body.type_()) {
+          continue;
+        }
+        let l = c.body.loc();
+        if let (Some((a0, b0)), Some((s, en))) = (self.range(&l, "expr"), self.text.span(&l)) {
+          let sub = if i == 0 { "arm-first" } else if i + 1 == n { "arm-last" } else { "arm-middle" };
+          self.push("operand-type", sub, s, en, "\"s\"".into(), vec![Splice { at: a0, del: b0 - a0, ins: vec!["Str(s)".into()] }]);
+        }
+      }
+    }
     // a discriminating column: the root, a field of a struct pattern or a position of a tuple pattern at which
     // EVERY arm has a plain variant pattern, with pairwise distinct tags. Deleting the arm with tag V then leaves
     // every value whose column holds V (the other columns arbitrary) without a matching arm.
